@@ -41,17 +41,65 @@ type c08Case struct {
 var spinSink atomic.Int64
 
 var (
+	c08ClustersOnce sync.Once
+	c08Clusters     [][]string
+)
+
+// namedClusters: connected components of the reference graph of the named universe.
+// A round takes one whole unused cluster, so mutually nested types are first used together.
+func namedClusters() [][]string {
+	c08ClustersOnce.Do(func() {
+		names := namedRefs()
+		parent := map[string]string{}
+		var find func(x string) string
+		find = func(x string) string {
+			if parent[x] == x {
+				return x
+			}
+			parent[x] = find(parent[x])
+			return parent[x]
+		}
+		for _, n := range names {
+			parent[n] = n
+		}
+		for _, n := range names {
+			core.LookupSpec(n).WalkTypes(func(t *core.TypeSpec) {
+				if t.Kind == core.KStruct && t.Ref != "" {
+					if _, ok := parent[t.Ref]; ok {
+						parent[find(n)] = find(t.Ref)
+					}
+				}
+			})
+		}
+		groups := map[string][]string{}
+		var roots []string
+		for _, n := range names {
+			r := find(n)
+			if _, ok := groups[r]; !ok {
+				roots = append(roots, r)
+			}
+			groups[r] = append(groups[r], n)
+		}
+		for _, r := range roots {
+			c08Clusters = append(c08Clusters, groups[r])
+		}
+	})
+	return c08Clusters
+}
+
+var (
 	c08Round     int
 	c08NamedNext int
 	c08Old       []c08Prepared // calls on types registered in earlier rounds
 )
 
 type c08Prepared struct {
-	spec *core.StructSpec
-	b    *core.Bound
-	op   string
-	v    *core.SVal
-	msg  []byte
+	byValue bool // pass the struct itself instead of a pointer (size/encode)
+	spec    *core.StructSpec
+	b       *core.Bound
+	op      string
+	v       *core.SVal
+	msg     []byte
 	// expectations from the sequential model
 	alts  [][]byte // canonical reference encodings
 	sizes map[int]bool
@@ -123,7 +171,7 @@ func genC08(t *rapid.T) c08Case {
 	c.SteadyN = rapid.IntRange(5, 40).Draw(t, "steadyn")
 	c.Procs = rapid.SampledFrom([]int{2, 4, 16}).Draw(t, "procs")
 	c.Yield = rapid.SliceOfN(rapid.IntRange(0, 3), 8, 8).Draw(t, "yield")
-	c.Spin = rapid.SliceOfN(rapid.IntRange(0, 60000), 16, 16).Draw(t, "spin")
+	c.Spin = rapid.SliceOfN(rapid.SampledFrom([]int{0, 0, 200, 1000, 5000, 20000, 60000, 200000, 600000}), 16, 16).Draw(t, "spin")
 	return c
 }
 
@@ -148,7 +196,11 @@ func (p *c08Prepared) exec() *Failure {
 	switch p.op {
 	case "size", "encode":
 		src := p.b.NewValue(p.v)
-		sz, f := fSize(src.Interface())
+		arg := src.Interface()
+		if p.byValue {
+			arg = src.Elem().Interface() // the descriptor table is keyed by struct type and by pointer type
+		}
+		sz, f := fSize(arg)
 		if f != nil {
 			return f
 		}
@@ -159,7 +211,7 @@ func (p *c08Prepared) exec() *Failure {
 			return nil
 		}
 		buf := make([]byte, sz)
-		n, err, f := fEncode(buf, src.Interface())
+		n, err, f := fEncode(buf, arg)
 		if f != nil {
 			return f
 		}
@@ -217,12 +269,15 @@ func (r *c08Runner) run(c c08Case) *Failure {
 	}
 	// resolve the batch: fresh anonymous types + the next unused named types
 	types := append([]*core.StructSpec{}, c.Types...)
-	names := namedRefs()
-	for i := 0; i < c.Named && c08NamedNext < len(names); i++ {
-		types = append(types, core.LookupSpec(names[c08NamedNext]))
+	clusterSize := 0
+	if clusters := namedClusters(); c08NamedNext < len(clusters) {
+		for _, n := range clusters[c08NamedNext] {
+			types = append(types, core.LookupSpec(n))
+		}
+		clusterSize = len(clusters[c08NamedNext])
 		c08NamedNext++
 	}
-	vcfg := core.GenCfg{MaxBytes: 512, ContainerMax: 4}
+	vcfg := core.GenCfg{MaxBytes: 1024, ContainerMax: 3, NoNil: true}
 	// prepare every call before the barrier (model work stays out of the race window)
 	regs := make([][]c08Prepared, len(c.Regs))
 	firstUsers := map[int]int{}
@@ -230,6 +285,11 @@ func (r *c08Runner) run(c c08Case) *Failure {
 		seen := map[int]bool{}
 		for _, call := range calls {
 			ti := call.T % len(types)
+			if clusterSize > 0 && (call.T >= len(c.Types) || (g+len(regs[g]))%2 == 1) {
+				// while unused named clusters remain, every other call goes to the round's cluster,
+				// spread over all its members: mutually nested types are first used from both ends
+				ti = len(c.Types) + (call.T+g)%clusterSize
+			}
 			s := types[ti]
 			v, msg := call.V, call.Msg
 			if ti >= len(c.Types) || (v == nil && msg == nil) {
@@ -245,7 +305,9 @@ func (r *c08Runner) run(c c08Case) *Failure {
 					v = tv
 				}
 			}
-			regs[g] = append(regs[g], prepare(s, call.Op, v, msg))
+			pp := prepare(s, call.Op, v, msg)
+			pp.byValue = (g+len(regs[g])+c08Round)%3 == 0
+			regs[g] = append(regs[g], pp)
 			if !seen[ti] {
 				seen[ti] = true
 				firstUsers[ti]++
@@ -378,8 +440,8 @@ func (r *c08Runner) run(c c08Case) *Failure {
 	if shared {
 		labels = append(labels, "same-fresh-type-by->=2-goroutines")
 	}
-	if c.Named > 0 {
-		labels = append(labels, "named-types-in-batch")
+	if clusterSize > 0 {
+		labels = append(labels, "named-cluster-in-batch", fmt.Sprintf("named-cluster-size:%d", min(clusterSize, 8)))
 	}
 	r.w.count(shared && overlapFirst && (steadyDuring || nSteady == 0 && c08Round <= 2), fmt.Sprintf("%d|%d|%d|%d", envInt("VERIF_SEED", 1), shard(), c08Round, len(regs)),
 		map[string]interface{}{"round": c08Round, "registrars": len(regs), "steady": nSteady, "fresh_types": len(types), "gomaxprocs": c.Procs}, labels...)
